@@ -809,6 +809,16 @@ def generate():
         no_drop = 'implDropforOsIpcOneShotServer' not in flat
         if not drop_unreg and not no_drop:
             fail("in-process one-shot server: its Drop impl is not recognised")
+        # receiver set of the in-process transport: ids come from a counter that only grows; a closed member leaves both parallel vectors
+        # at the same index
+        ids_counter = ('letlast_index=self.incrementor.next().unwrap();self.receiver_ids.push(last_index);self.receivers.push(receiver.consume());Ok(last_index)' in flat
+                       and 'incrementor:0..,' in flat and flat.count('incrementor') == 3)
+        ids_len = 'self.receiver_ids.len()asu64' in flat
+        if not ids_counter and not ids_len:
+            fail("in-process OsIpcReceiverSet::add: where the id comes from is not recognised")
+        out.append(f"def inprocSetIdsFromCounter : Bool := {'true' if ids_counter else 'false'}  -- false: the id is the current number of members")
+        par = 'self.receivers.remove(r_index);self.receiver_ids.remove(r_index);Ok(vec![OsIpcSelectionResult::ChannelClosed(r_id)])' in flat and 'letr_id=self.receiver_ids[r_index];' in flat
+        out.append(f"def inprocSetParallelRemove : Bool := {'true' if par else 'false'}")
         # the in-process transport knows which kind of endpoint an attachment is; asked for the other kind it panics (D18, open)
         kp = ('OsIpcChannel::Sender(_)=>panic!("Opaquechannelisnotareceiver!"),' in flat and 'OsIpcChannel::Receiver(_)=>panic!("Opaquechannelisnotasender!"),' in flat)
         out.append(f"def inprocKindMismatchPanics : Bool := {'true' if kp else 'false'}  -- to_sender on a receiver / to_receiver on a sender: `panic!`")
